@@ -812,7 +812,9 @@ def cargo_build(proj_dir, name):
         private = os.path.join(proj_dir, name + ".bin")
         if p.returncode == 0 and os.path.exists(binary):
             shutil.copy(binary, private)
-            os.remove(binary)
+        for f in (binary, binary + ".d"):
+            if os.path.exists(f):
+                os.remove(f)
     return p.returncode, p.stderr, private
 
 
@@ -1070,7 +1072,8 @@ def run(chk):
 
         vlib.log("[c17] mixing done at %.1fs" % (time.time() - t0))
         # -------- thorough: real builds, accepted and rejected arguments
-        runtime = {"built": 0, "runs": 0}
+        runtime = {"built": 0, "runs": 0, "accepted_constructed": 0, "rejected_stopped_with_validation_failure": 0,
+                   "hookless_wrapped": 0, "known_class_bypass_ran_to_completion": 0}
         if thorough:
             for with_known in (False, True):
                 p, table = runtime_program(g, with_known)
@@ -1104,11 +1107,14 @@ def run(chk):
                         if bad and not validated and not passed:
                             why = "hookless newtype refused a value: rc=%d %s" % (pr.returncode, pr.stderr[-200:])
                         if why is None:
+                            runtime["accepted_constructed" if not bad else
+                                    ("rejected_stopped_with_validation_failure" if validated else "hookless_wrapped")] += 1
                             continue
                         site = Site(k, nt, form)
                         site.module, site.decl_index = 0, (0 if ctx == "early" else 10**6)
                         cls = [c for c in known_class(site) if c in known_ids]
                         if bad and validated and passed and cls:
+                            runtime["known_class_bypass_ran_to_completion"] += 1
                             for c in cls:
                                 known_seen[c] = "%s (runtime: %s(%s) with a rejected argument ran to completion)" % (known_seen.get(c, c), nt.name, form)
                             continue
@@ -1131,9 +1137,25 @@ def run(chk):
         chk.sample(label + ": " + p.sites[3].src() + " in " + str(p.sites[3].ctx))
     chk.sample(mix_program("int", MIX_SITES["MCallArg"], False)[-60:])
 
-    for f in chk.findings:
-        if f.get("status") == "known" and f["id"] in known_seen:
+    # known findings: replay each witness on the real pipeline; report it only if it still fails
+    wit = [f for f in chk.findings if f.get("status") == "known" and isinstance(f.get("witness"), dict) and "files" in f["witness"]]
+    try:
+        wres = run_cases(dbg, [{"dir": os.path.join(SCRATCH, "w%d" % i), "files": f["witness"]["files"], "entry": "main.incn",
+                                "op": "check" if f["witness"].get("check_passes") else "emit"} for i, f in enumerate(wit)]) if wit else []
+    finally:
+        shutil.rmtree(SCRATCH, ignore_errors=True)
+    for f, r in zip(wit, wres):
+        w = f["witness"]
+        if w.get("check_passes"):
+            still = r["stage"] == "ok"
+        else:
+            t = strip_ws(r.get("main", "")) if r["stage"] == "ok" else ""
+            still = strip_ws(w["raw_text"]) in t
+        if still:
             chk.known(f["id"], "%s: %s" % (f["id"], f["summary"]))
+        elif f["id"] in known_seen:
+            chk.notes.append("finding %s: the listed witness no longer fails but generated sites of its class do: %s" % (f["id"], known_seen[f["id"]]))
+    chk.coverage["known_class_sites_seen"] = known_seen
     for f in fails[:20]:
         chk.violation("failing-input", f)
     if not fails:
